@@ -21,3 +21,23 @@ func VerifHeaderActionC49(cmd string, params []string, req *bfe_basic.Request) e
 	HeaderActionsDo(req, getHeaderType(ac.Cmd), []Action{ac})
 	return nil
 }
+
+var verifModC49 *ModuleHeader
+
+// VerifHeaderResetC49 starts a history on a fresh module instance (empty rule table, default headers disabled).
+func VerifHeaderResetC49() {
+	verifModC49 = NewModuleHeader()
+	verifModC49.disableDefaultHeader = true
+}
+
+// VerifHeaderReloadC49 reloads the rule file through the module's reload handler
+// (loadConfData -> HeaderConfLoad -> HeaderTable.Update).
+func VerifHeaderReloadC49(path string) error {
+	return verifModC49.loadConfData(map[string][]string{"path": {path}})
+}
+
+// VerifHeaderRequestC49 runs reqHeaderHandler (HandleAfterLocation) and rspHeaderHandler (HandleReadResponse) on req.
+func VerifHeaderRequestC49(req *bfe_basic.Request) {
+	verifModC49.reqHeaderHandler(req)
+	verifModC49.rspHeaderHandler(req, req.HttpResponse)
+}
